@@ -842,7 +842,51 @@ class FakeIndex(_S):
 
 
 class FakeRangeIndex(FakeIndex):
-    pass
+    """pd.RangeIndex: labels start, start+step, ...; start and step may be symbolic integers.  Taking positions gives the labels
+    start + step * position (negative positions count from the end, as in pandas)"""
+    def __init__(self, start=0, stop=None, step=1, name=None, n=None):
+        if n is None:
+            if stop is None:
+                start, stop = 0, start
+            if isinstance(start, int) and isinstance(stop, int) and isinstance(step, int):
+                n = len(range(start, stop, step))
+            else:
+                n = _dim(stop) if isinstance(start, int) and start == 0 and isinstance(step, int) and step == 1 else None
+                if n is None:
+                    raise OutsideModel("pd.RangeIndex with symbolic bounds")
+        FakeIndex.__init__(self, n, [name])
+        self.start, self.step = start, step
+
+    def equals(self, o):
+        if isinstance(o, FakeRangeIndex):
+            return bool(b_and(len(o) == len(self), self.start == o.start, self.step == o.step) if len(self) else len(o) == 0)
+        return FakeIndex.equals(self, o)
+
+    def __getitem__(self, k):
+        if isinstance(k, (int, real_np.integer)):
+            return self.start + self.step * (int(k) + self.n if k < 0 else int(k))
+        if isinstance(k, FakeSeries):
+            k = k.arr
+        if isinstance(k, A) and k.dtype.kind in "iu":
+            cur = current()
+            cells = []
+            for p in k.cells:
+                cur.check("bounds", b_and(p >= -self.n, p < self.n))
+                cells.append(self.start + self.step * ite(p < 0, p + self.n, p))
+            return SymLabelIndex(cells, self.name)
+        raise OutsideModel(f"RangeIndex[{type(k).__name__}]")
+
+
+class SymLabelIndex(FakeIndex):
+    """an index whose (integer) labels are terms: what taking symbolic positions from a RangeIndex gives, or pd.Index(int array)"""
+    def __init__(self, cells, name=None):
+        FakeIndex.__init__(self, len(cells), [name])
+        self.cells = list(cells)
+
+    def __getitem__(self, k):
+        if isinstance(k, (int, real_np.integer)):
+            return self.cells[k]
+        raise OutsideModel("indexing an index of symbolic labels")
 
 
 def _concrete_key(k):
@@ -1148,6 +1192,8 @@ class _ILoc:
                 # a slice is a VIEW in pandas: the columns keep sharing their buffers
                 idx = o.index[k]
                 return FakeFrame({c: FakeSeries((v.arr if isinstance(v, FakeSeries) else v)[k], idx, name=c) for c, v in o.data.items()}, index=idx)
+            if not isinstance(o.index, LIndex) and isinstance(k, A) and k.dtype.kind in "iu":
+                return o._take(k)
             return o._rows(_select(len(o), _concrete_key(k)))
         if not isinstance(o.index, LIndex):
             return o.arr[k]
@@ -1343,6 +1389,19 @@ class FakeFrame(_S):
     def __len__(self):
         return len(next(iter(self.data.values()))) if self.data else 0
 
+    def set_index(self, idx, **kw):
+        if kw or not isinstance(idx, FakeIndex) or len(idx) != len(self):
+            raise OutsideModel("DataFrame.set_index with anything but an index object of the frame's length")
+        return FakeFrame({c: FakeSeries(v.arr if isinstance(v, FakeSeries) else v, idx, name=c) for c, v in self.data.items()}, index=idx)
+
+    def _take(self, k):
+        """positional take with an integer array (possibly symbolic positions) on a frame without labelled rows"""
+        out = {}
+        for c, v in self.data.items():
+            arr = v.arr if isinstance(v, FakeSeries) else v
+            out[c] = arr[k]
+        return FakeFrame(out, index=None)
+
     def _rows(self, pos):
         if not isinstance(self.index, LIndex):
             raise OutsideModel("row selection on a frame without a labelled index model")
@@ -1380,6 +1439,8 @@ def _make_index(data=None, name=None, **kw):
         data = list(data.cells)
     if isinstance(data, (list, tuple)) and all(isinstance(x, (str, int, float)) for x in data):
         return LIndex(list(data), name)
+    if isinstance(data, A) and data.ndim == 1 and data.dtype.kind in "iu":
+        return SymLabelIndex(list(data.cells), name)
     return FakeIndex(data if data is not None else 0)
 
 
